@@ -486,6 +486,12 @@ static void setup_argument_context(PyObject **pDict, bool is_retval, struct scri
 				break;
 			}
 			insert_tuple_double(args, count++, dval);
+#else
+			/*
+			 * libmcount cannot touch floating-point values, but an
+			 * empty slot in the tuple crashes the interpreter.
+			 */
+			insert_tuple_string(args, count++, "<float>");
 #endif
 			data += ALIGN(spec->size, 4);
 			break;
